@@ -585,7 +585,7 @@ func runC03(c *Ctx) {
 		c.Res.HarnessError = "driver does not answer merge.valid: " + v
 		return
 	}
-	r := NewRng(c.Seed)
+	r := NewRng(c.Seed).Fork() // Fork: consecutive seeds of NewRng are shifted copies of one stream
 	one := func(g c03Gen, full bool) {
 		cs := mkCase(r, g)
 		// generators must stay inside the property's quantifier: valid profiles
@@ -623,7 +623,7 @@ func runC03(c *Ctx) {
 		if i%4 == 0 {
 			one(genCancel(r, i/4), i%8 == 0)
 		}
-		if i%5 == 0 {
+		if i%2 == 0 {
 			one(genLabelSoup(r), false)
 		}
 		if i%10 == 0 { // Compact of a single profile (with garbage: unreferenced entities)
